@@ -29,16 +29,16 @@ import (
 // the detector reports the same pair of repo code locations again.
 
 type raceEvidence struct {
-	Rounds      int      `json:"rounds"`
-	RequestSets int      `json:"request_sets"`
-	Requests    int64    `json:"requests"`
-	Reports     int      `json:"race_reports"`
-	RepoReports int      `json:"race_reports_in_repo_code"`
-	Fatal       int      `json:"fatal_concurrent_map_errors"`
-	Differs     int      `json:"parallel_responses_differing_from_solo"`
-	StateWriters int     `json:"state_writer_requests_from_simulated_half"`
-	Note        string   `json:"note"`
-	Pairs       []string `json:"pairs,omitempty"`
+	Rounds       int      `json:"rounds"`
+	RequestSets  int      `json:"request_sets"`
+	Requests     int64    `json:"requests"`
+	Reports      int      `json:"race_reports"`
+	RepoReports  int      `json:"race_reports_in_repo_code"`
+	Fatal        int      `json:"fatal_concurrent_map_errors"`
+	Differs      int      `json:"parallel_responses_differing_from_solo"`
+	StateWriters int      `json:"state_writer_requests_from_simulated_half"`
+	Note         string   `json:"note"`
+	Pairs        []string `json:"pairs,omitempty"`
 }
 
 type raceReq struct {
